@@ -225,6 +225,11 @@ static void gen_inot(int tier)
 		if (P(50))
 			gx_add_op(CTX_CB, tm, 1, OP_REG, insts[which], 0, 0, 0);
 	}
+	if (!two && P(3) && nw > 0) {
+		/* a flood: far more events than the kernel's queue holds (16384) are produced before the loop
+		 * gets to read anything, so the queue ends in an overflow record that belongs to no watch */
+		gx_add_op(CTX_SETUP, 0, 0, OP_FSOP, 1 + R(2), 5, 8300 + R(400), 0);
+	}
 	gx_absent(8);
 	gx_eintr(two ? 2 : 1, 12);
 	gx_regfail();
